@@ -10,8 +10,12 @@
 (*           mf write cache name (character sequence), noname              *)
 (*           seq src split  ok, ctx = _get_context()  or  exc + the words  *)
 (*                          of the exception message                       *)
+(*   vin   run-time contexts of the values that were sent in               *)
 (*   ran, rt   contexts of the values that left the pipeline; rtx = they   *)
 (*             were recorded (pipelines with two Caches are not run)       *)
+(*   gen   1 = first execution; 2 = the same program executed again while  *)
+(*         the files of the first execution exist (the fold does not look  *)
+(*         at the disk: the record is validated like any other)            *)
 (*   stable  every observation was the same again after the run            *)
 (*   only  0 = check everything; i > 0 = only element i; Len(els)+1 =    *)
 (*         only the run-time part (used to localise a rejection)           *)
@@ -44,11 +48,12 @@ ElemOk(E, pol, n, in, o) ==
 RunOk(E, pol, w, r) ==
   /\ r.ran
   /\ r.stable      \* running the pipeline changed nothing the elements hold
+  \* without UpdateContextFromStatic a value leaves with the context it came with
   /\ (\A j \in 1..Len(E) : E[j].k # "ucfs") =>
-        \A j \in 1..Len(r.rt) : DOMAIN r.rt[j].m \subseteq {"output", "rt"}
+        \A j \in 1..Len(r.rt) : NoOut(r.rt[j]) \in {NoOut(r.vin[n]) : n \in 1..Len(r.vin)} \cup {Empty}
   /\ (r.rtx /\ ~OutOf(E, pol, Len(E), Cur(Empty)).err) =>
         LET seen == [j \in 1..Len(E) |-> w[j].ctx] IN
-        Range(r.rt) = Range(RunRoot(E, seen))
+        \E exp \in RunReadings(E, r.vin, seen) : Range(r.rt) = Range(exp)
 
 Match(r, pol) ==
   LET E == r.els
